@@ -364,3 +364,16 @@ impl RtpsWriterProxy {
     }
   }
 } // impl
+
+// Verification hook: read-only view of the sequence number bookkeeping.
+#[cfg(rustdds_verif)]
+impl RtpsWriterProxy {
+  /// (ack_base, keys of `changes`, received_heartbeat_count)
+  pub(crate) fn verif_digest(&self) -> (i64, Vec<i64>, i32) {
+    (
+      i64::from(self.ack_base),
+      self.changes.keys().map(|sn| i64::from(*sn)).collect(),
+      self.received_heartbeat_count,
+    )
+  }
+}
